@@ -134,6 +134,17 @@ impl World {
                 let built = catch(|| r.run(&rctx, empty));
                 uninstall_plan();
                 if let Ok(ctx) = built {
+                    if std::env::var("VERIF_DBG").is_ok() {
+                        eprintln!(
+                            "ROOT {} {name}/{policy}: routes={} required={} ignored={} unassigned={} locked={}",
+                            self.problem.name,
+                            ctx.solution.routes.len(),
+                            ctx.solution.required.len(),
+                            ctx.solution.ignored.len(),
+                            ctx.solution.unassigned.len(),
+                            ctx.solution.locked.len()
+                        );
+                    }
                     out.push((format!("{name}/{policy}"), ctx));
                 }
             }
@@ -233,6 +244,40 @@ fn structural(world: &World, ctx: &InsertionContext) -> Vec<(String, String)> {
             _ => errs.push(("I1:job-duplicated".to_string(), format!("job '{id}' lives in {:?}", places[&id]))),
         }
     }
+    // conditional jobs (breaks, reloads) share ids, they are told apart by identity: each lives in exactly one place too
+    let ptr = |job: &Job| -> usize {
+        match job {
+            Job::Single(s) => Arc::as_ptr(s) as *const () as usize,
+            Job::Multi(m) => Arc::as_ptr(m) as *const () as usize,
+        }
+    };
+    let mut by_ptr: HashMap<usize, Vec<String>> = HashMap::new();
+    for (ri, rc) in ctx.solution.routes.iter().enumerate() {
+        for job in rc.route().tour.jobs() {
+            by_ptr.entry(ptr(job)).or_default().push(format!("route{ri}"));
+        }
+    }
+    for job in ctx.solution.unassigned.keys() {
+        by_ptr.entry(ptr(job)).or_default().push("unassigned".into());
+    }
+    for job in &ctx.solution.required {
+        by_ptr.entry(ptr(job)).or_default().push("required".into());
+    }
+    for job in &ctx.solution.ignored {
+        by_ptr.entry(ptr(job)).or_default().push("ignored".into());
+    }
+    for job in &all {
+        let id = job_id(job);
+        if plan.contains(id.as_str()) {
+            continue;
+        }
+        let vehicle = job.dimens().get_vehicle_id().cloned().unwrap_or_default();
+        match by_ptr.get(&ptr(job)).map(|p| p.len()).unwrap_or(0) {
+            1 => {}
+            0 => errs.push(("I1:conditional-job-lost".to_string(), format!("conditional job '{id}' of vehicle '{vehicle}' lives nowhere"))),
+            _ => errs.push(("I1:conditional-job-duplicated".to_string(), format!("conditional job '{id}' of vehicle '{vehicle}' lives in {:?}", by_ptr[&ptr(job)]))),
+        }
+    }
     if places.len() > all.len() {
         errs.push(("I1:unknown-job".to_string(), "context holds a job which is not part of the problem".into()));
     }
@@ -295,11 +340,20 @@ fn feasibility(world: &World, ctx: &InsertionContext) -> Vec<(String, String)> {
     let copy = ctx.deep_copy();
     let solution: CoreSolution = (copy, None).into();
     match catch(|| write_solution(world.core.as_ref(), &solution)) {
-        Ok(Ok(json)) => oracle::check(&world.problem, &json, &OracleOptions { tol: if world.family == "scale" { 1. } else { 0. } })
+        Ok(Ok(json)) => {
+            let findings = oracle::check(&world.problem, &json, &OracleOptions { tol: if world.family == "scale" { 1. } else { 0. } });
+            if std::env::var("VERIF_DUMP").is_ok() && !findings.is_empty() {
+                eprintln!("PROBLEM {}\nMATRICES {}\nSOLUTION {}", world.problem.problem_json(), serde_json::json!(world.problem.matrices_json()), json);
+                for f in &findings {
+                    eprintln!("FINDING {} :: {}", f.rule, f.what);
+                }
+            }
+            findings
             .into_iter()
             .filter(|f| f.rule.starts_with("C01:") || f.rule == "C02:job-split" || f.rule == "C02:pickup-after-delivery" || f.rule == "C02:vehicle-shift-twice")
             .map(|f| (format!("I5:{}", f.rule), f.what))
-            .collect(),
+            .collect()
+        }
         Ok(Err(e)) => vec![("I5:cannot-write".into(), e)],
         Err(p) => vec![(format!("I5:write-panic@{}", panic_site(&p)), p)],
     }
